@@ -11,6 +11,9 @@ of {loop thread, worker thread} run at any time:
 * when the function returns the result is delivered to the awaiting future through the loop's ready
   queue, as `wrap_future` does.
 
+`run_on_vloop(main, on_idle)` runs a coroutine on a bare `VLoop` (no world, no transports) with this executor:
+the direct lock-step seams tg:vloop / mw:vloop of C17's flow group.
+
 Every such schedule is one a real thread pool can produce (the loop thread being descheduled while
 the worker runs), and it is deterministic.  Jobs still blocked at teardown are abandoned: their pending
 `.result()` raises `Abandoned` so the thread unwinds and exits.
@@ -169,3 +172,63 @@ def _run_in_executor(self: Any, executor: Any, func: Callable, *args: Any) -> An
 def install() -> None:
     aio.VLoop.run_in_executor = _run_in_executor  # type: ignore[assignment]
     asyncio.run_coroutine_threadsafe = _run_coroutine_threadsafe  # type: ignore[assignment]
+
+
+def run_on_vloop(main: Callable[[Any], Any], on_idle: Callable[[Any], bool], max_steps: int = 200000) -> list:
+    """Run `main(loop)` (a coroutine function) to completion on a fresh bare `VLoop` - no world, no
+    transports - with the lock-step executor, for the direct seams of C17.  Whenever the loop has nothing
+    to do (every task parked, the worker - if any - blocked in a bridged call) `on_idle(loop)` is asked to
+    release something; when it cannot (returns False) the next timer is jumped to, and when there is none
+    the run is reported as stuck.  Returns the list of problems."""
+    from asyncio import events
+
+    install()
+    problems: list = []
+    loop = aio.VLoop()
+    events._set_running_loop(loop)
+    loop._thread_id = threading.get_ident()
+    try:
+        task = loop.create_task(main(loop))
+        steps = 0
+        while not task.done():
+            if not loop.has_work() and not on_idle(loop):
+                nd = loop.next_deadline()
+                if nd is None:
+                    problems.append("stuck: nothing runnable, nothing to release, no timer")
+                    break
+                loop._vtime = nd
+            loop.step()
+            steps += 1
+            if steps > max_steps:
+                problems.append("livelock: step cap hit")
+                break
+        if task.done() and not task.cancelled() and task.exception() is not None:
+            problems.append(f"main task failed: {type(task.exception()).__name__}: {task.exception()}")
+    finally:
+        try:
+            for _ in range(3):
+                pending = [t for t in loop.all_tasks_ever if not t.done()]
+                if not pending:
+                    break
+                for t in pending:
+                    t.cancel()
+                for _ in range(200):
+                    if not loop._ready:
+                        break
+                    loop.step()
+            for t in loop.all_tasks_ever:
+                if not t.done():
+                    t._log_destroy_pending = False
+                elif not t.cancelled():
+                    t.exception()
+            loop._thread_id = None
+            events._set_running_loop(None)
+            loop._ready.clear()
+            loop._scheduled.clear()
+            for job in loop.executor_jobs:
+                job.abandon()
+            loop.close()
+        finally:
+            loop._thread_id = None
+            events._set_running_loop(None)
+    return problems
